@@ -9,8 +9,8 @@
 (assert (forall ((ks Sl.RV) (v RV) (f Fn))
   (! (=> (and (keysOf ks v) ((_ is fn.bexpr.evaluateCollectionExpression$1) f)) (= (sortedBy.Sl.RV ks f) (sortedKeys v)))
      :pattern ((sortedBy.Sl.RV ks f) (keysOf ks v)))))
-(define-fun lvAlias ((name Str) (path Sl.Str)) S.bexpr.localVariable (mk.S.bexpr.localVariable name path nilAny))
-(define-fun lvValue ((name Str) (val Any)) S.bexpr.localVariable (mk.S.bexpr.localVariable name Sl.Str.nil val))
+(define-fun lvAlias ((name Str) (path Sl.Str)) S.bexpr.localVariable (with.S.bexpr.localVariable.path (with.S.bexpr.localVariable.name zero.S.bexpr.localVariable name) path))
+(define-fun lvValue ((name Str) (val Any)) S.bexpr.localVariable (with.S.bexpr.localVariable.value (with.S.bexpr.localVariable.name zero.S.bexpr.localVariable name) val))
 (define-fun snocIf ((c Bool) (l Sl.S.bexpr.localVariable) (x S.bexpr.localVariable)) Sl.S.bexpr.localVariable
   (ite c (Sl.S.bexpr.localVariable.snoc l x) l))
 ; list element i: the one-name form and the value name alias the element path, the index name is the position
